@@ -384,7 +384,7 @@ VALID_SEEDS = [
     '[[:alpha:][:digit:]-z]', '[a-z-9]', '[(?#)]', '[x(?#)]', '[^\\-a]', 'a//b', '@(a/b)', '*(a|b/c)', '!(*.a|*.b)', '+(a)|+(b)', '{a,{b,c}}',
 ]
 SOUP = ['!(', '?(', '*(', '@(', '+(', ')', '|', 'a', 'b', 'A', '*', '**', '***', '?', '/', '//', '.', '..', '[', ']', '[!', '[^', '\\',
-        '\\\\', '-', '{', '}', ',', '..', '~', '!', '1', '9', '[:alpha:]', '[:x:]', '\\x', '\\x41', '\\u', '\\N{', '\\N{DIGIT ONE}',
+        '\\\\', '-', '{', '}', ',', '..', '~', '!', '1', '9', '[:alpha:]', '[:x:]', '\\x', '\\x41', '\\u', '\\N{', '\\N{DIGIT ONE}', '\\N{\ud800}', '\\N{x\udcffy}', '\\N{}',
         '\\U00110000', '\\UFFFFFFFF', '\\U80000000', '\\uD800', '\\UFFFFFFF', '\\xff', '\\0', '\\777', '\n', ' ', '\x00', '\xe9', 'c:', '^', '&', '&&', '||', '~~', '--', '\\/', '\\.', '$', '(?#)', '?:', '#', '(?', '\\Z', '(?i:']
 FS_UNSAFE = ('FOLLOW',)
 
